@@ -43,6 +43,11 @@ Theorem C11_respawn_refuted : exists s, run init witness_respawn = Some s /\ rea
   node (s 0) = None /\ quiet (s 0) = true /\ cnt (s 0) = 0%Z.
 Proof. exact respawn_refuted. Qed.
 
+Theorem C11_respawn_child_refuted : exists s, run init witness_respawn_child = Some s /\ reach s /\
+  handed (s 0) = [(1, RPid 1); (0, RPid 0)] /\ runs (s 0) = [1] /\ node (s 0) = None /\
+  quiet (s 0) = true /\ cnt (s 0) = 0%Z.
+Proof. exact respawn_child_refuted. Qed.
+
 Print Assumptions C11_same_flight_same_result.
 Print Assumptions C11_counter_share.
 Print Assumptions C11_at_most_one_running_partial.
@@ -50,3 +55,4 @@ Print Assumptions C11_handed_pid_is_running_partial.
 Print Assumptions C11_num_actors_partial.
 Print Assumptions C11_counter_at_quiescence_partial.
 Print Assumptions C11_respawn_refuted.
+Print Assumptions C11_respawn_child_refuted.
